@@ -16,10 +16,10 @@ package soyjs
 //@   props C13 C14 C09
 //@   noterm
 //@   preserves F!github.com/robfig/soy/ast.* F!github.com/robfig/soy/template.* E!Iface E!Str E!Int:uint8 E!Int:*github.com/robfig/soy/ast.*
-//@   at call template.JSEscape#0 assert[string-literal-escaped-whole;C14] len(arg1) == len(unbox(node, *ast.StringNode).Value) && forall(i, 0, len(arg1), arg1[i] == unbox(node, *ast.StringNode).Value[i])
+//@   at call soyjs.jsEscape#0 assert[string-literal-escaped-whole;C14] len(arg1) == len(unbox(node, *ast.StringNode).Value) && forall(i, 0, len(arg1), arg1[i] == unbox(node, *ast.StringNode).Value[i])
 //@   at call (*state).js#16 assert[a-space-separates-the-minus-from-its-operand;C14] typeis(arg1[0], string) && len(unbox(arg1[0], string)) == 3 && unbox(arg1[0], string)[1] == 45 && unbox(arg1[0], string)[2] == 32
 //@   at call (*FloatNode).String#0 assert[only-finite-numbers-and-NaN-are-written-as-digits;C14] !isInf(unbox(node, *ast.FloatNode).Value)
-//@   at call template.JSEscape#1 assert[map-key-escaped-whole;C14] len(arg1) == len(k) && forall(i, 0, len(arg1), arg1[i] == k[i])
+//@   at call soyjs.jsEscape#1 assert[map-key-escaped-whole;C14] len(arg1) == len(k) && forall(i, 0, len(arg1), arg1[i] == k[i])
 //@   nosafety
 //@   modifies *
 //@   loop 1
@@ -60,11 +60,37 @@ package soyjs
 //@ func (*state).Write
 //@   like jsEmitter
 //@   requires[only-generator-text-or-escaped;C14] forall(i, 0, len(args), !typeis(args[i], string) || jsok(unbox(args[i], string)))
+// jsEscape hands every byte of its input either to template.JSEscape, in
+// chunks that start where the last one ended, or - the bytes of one character
+// beyond the basic plane - to the surrogate-pair writer, with the two halves
+// utf16.EncodeRune gives for that character. (That JSEscape is right for the
+// chunks it gets, and which characters count as unprintable, is trusted.)
+//@ func jsEscape
+//@   props C14 C09 C13
+//@   nosafety
+//@   modifies *
+//@   preserves F!github.com/robfig/soy/ast.* F!github.com/robfig/soy/template.* E!Iface E!Str E!Int:uint8 E!Int:*github.com/robfig/soy/ast.*
+//@   ghost gr rune = 0
+//@   ghost gw int = 0
+//@   ghost h1 rune = 0
+//@   ghost h2 rune = 0
+//@   at call utf8.DecodeRune#0 assert[characters-read-one-after-the-other;C14] subslice(arg0, b, i) && len(arg0) == len(b) - i
+//@   at call utf8.DecodeRune#0 after set gr = res0
+//@   at call utf8.DecodeRune#0 after set gw = res1
+//@   at call template.JSEscape#1 assert[the-text-before-the-character-goes-to-the-escaper;C14] arg0 == w && subslice(arg1, b, last) && len(arg1) == i - last
+//@   at call utf16.EncodeRune#0 assert[the-halves-of-this-very-character;C14] arg0 == gr && gr > 65535
+//@   at call utf16.EncodeRune#0 after set h1 = res0
+//@   at call utf16.EncodeRune#0 after set h2 = res1
+//@   at call fmt.Fprintf#0 assert[written-as-its-two-surrogates-high-then-low;C14] arg0 == w && len(arg2) == 2 && unbox(arg2[0], rune) == h1 && unbox(arg2[1], rune) == h2
+//@   at call template.JSEscape#0 assert[the-rest-goes-to-the-escaper;C14] arg0 == w && subslice(arg1, b, last) && len(arg1) == len(b) - last
+//@   loop 0
+//@     invariant[chunks-start-where-the-last-one-ended;C14] 0 <= last && last <= i && i <= len(b)
+//@     decreases len(b) - i
 //@ func (*state).writeRawText
 //@   like jsEmitter
 //@   ghost covered int = 0
-//@   at call template.JSEscape#* assert[escaped-chunks-tile-the-text;C14] subslice(arg1, text, covered) && (covered + len(arg1) == len(text) || text[covered+len(arg1)] < 128 || text[covered+len(arg1)] >= 192)
-//@   at call template.JSEscape#* after set covered = covered + len(arg1)
+//@   at call soyjs.jsEscape#* assert[escaped-chunks-tile-the-text;C14] subslice(arg1, text, covered) && (covered + len(arg1) == len(text) || text[covered+len(arg1)] < 128 || text[covered+len(arg1)] >= 192)
+//@   at call soyjs.jsEscape#* after set covered = covered + len(arg1)
 //@   ensures[whole-text-escaped;C14] covered == len(text)
 //@ func (*state).op
 //@   like jsEmitter
